@@ -100,15 +100,30 @@ def default_repetition(recipe, decoy_recipe, K=25):
         return seq(r)
     a = run_once()
     d = Run(decoy_recipe, None, record=False, default_params=True)
+
+    def step_decoy(k):
+        try:
+            d.step(k)
+        except Exception as e:
+            if "outside of interval" not in str(e):
+                raise
+
+    step_decoy(3)
+    # second run: its iterations alternate with iterations of the other solver
+    r2 = Run(recipe, None, record=False, default_params=True)
     try:
-        d.step(3)
+        done = 0
+        for k in (1, 1, 2, 3, 5, 13):
+            r2.step(k)
+            done += k
+            step_decoy(1)
     except Exception as e:
         if "outside of interval" not in str(e):
             raise
-    b = run_once()
+    b = seq(r2)
     if a != b:
-        fail("the same problem run twice with default parameters gives different trial sequences (%s) after a "
-             "%d-dimensional solver with default parameters was created in between" %
+        fail("the same problem run twice with default parameters gives different trial sequences (%s) when a "
+             "%d-dimensional solver with default parameters is created and stepped in between" %
              (first_diff(a, b), decoy_recipe["n"]))
 
 
